@@ -351,6 +351,9 @@ package text
 //@   ensures  [none-violated] wsMode == WsNone && callarg[parsley.Pos](1, 3) > pos && callres[parsley.Error](1, 2) == nil ==> n == nil && err != nil && err.Pos() == pos && parsley.IsWsErr(err)
 //@   ensures  [violated;C10] callres[parsley.Error](1, 2) == nil && modeViolated(tr, wsMode, pos, callarg[parsley.Pos](1, 3)) ==> n == nil && err != nil && parsley.IsWsErr(err)
 //@   ensures  [satisfied;C10] callres[parsley.Error](1, 2) == nil && !modeViolated(tr, wsMode, pos, callarg[parsley.Pos](1, 3)) ==> err == nil && same(n, callres[parsley.Node](1, 0))
+//@   ensures  [ws-priority;C10] callres[parsley.Error](1, 2) != nil && modeViolated(tr, wsMode, pos, callarg[parsley.Pos](1, 3)) && callres[parsley.Error](1, 2).Pos() > callarg[parsley.Pos](1, 3) ==> n == nil && err != nil && parsley.IsWsErr(err)
+//@   ensures  [notfound-moved;C10] callres[parsley.Error](1, 2) != nil && modeViolated(tr, wsMode, pos, callarg[parsley.Pos](1, 3)) && callres[parsley.Error](1, 2).Pos() <= callarg[parsley.Pos](1, 3) && parsley.IsNotFound(callres[parsley.Error](1, 2)) ==> err != nil && err.Pos() == pos && same(err.Cause(), callres[parsley.Error](1, 2).Cause())
+//@   ensures  [error-kept;C10] callres[parsley.Error](1, 2) != nil && !modeViolated(tr, wsMode, pos, callarg[parsley.Pos](1, 3)) ==> same(err, callres[parsley.Error](1, 2))
 //@   ghost_return when err != nil && err.Pos() > parsley.GhostMaxFail :: parsley.GhostMaxFail = err.Pos()
 
 //@ -- ------------------------------------------------------------------ RightTrim / Trim
